@@ -1,3 +1,4 @@
+mod acl_model;
 mod addr;
 mod check;
 mod supervisor;
